@@ -210,7 +210,7 @@ def r10_2(ctx, f, pv, L, recs, V, Ln, meta_of):
 
 
 def r10_3(ctx):
-    R = ctx.rule('R10.3', 'the transition index is consulted / accounted only for version >= 2 (same guard at every reader site)', floor=2)
+    R = ctx.rule('R10.3', 'the transition index is consulted / accounted only for version >= 2 (same guard at every reader site)', floor=1)
     lib = ctx.lib
     thr = 'raw::node::TRANS_INDEX_THRESHOLD'
     n = 0
